@@ -1,4 +1,5 @@
 """C05 — every input shape normalizes to the same canonical tree."""
+import json
 from ..gens import *
 
 ID = "C05"
@@ -172,6 +173,42 @@ def gen(rng, tier):
         yield {"k": "norm", "from": M([(k, a) for k, (a, _) in xs] + [("n", U(1))]), "opts": [], "repeat": 2,
                "plain": M([(k, b) for k, (_, b) in xs] + [("n", U(1))]), "_tag": "norm/regexp-values", "_nt": True,
                "_sig": "regexps|%s" % shape_of(M([(k, b) for k, (_, b) in xs]))}
+
+    # float32 inputs keep their numeric value (widened exactly, not through their decimal text): values that are not
+    # short in decimal, as slice elements, map values and plain settings, next to the same numbers given as float64
+    f32 = [0x3fb99999a0000000, 0x3f50624de0000000, 0x40091eb860000000, 0xbfd3333340000000, 0x3ff8000000000000, 0x4155555560000000]
+    frng = rng.fork("float32")
+    for _ in range(40 if tier == "quick" else 400):
+        def fl():
+            b_ = frng.pick(f32)
+            return (dict(F(b_), **({"rep": "float32"} if frng.chance(0.7) else {})), F(b_))
+        xs = [fl() for _ in range(1 + frng.below(3))]
+        ys = [("k%d" % i, fl()) for i in range(1 + frng.below(2))]
+        one = fl()
+        lrep = frng.pick([{}, {"rep": "typed"}, {"rep": "array"}])
+        mrep = frng.pick([{}, {"rep": "typed"}])
+        yield {"k": "norm", "from": M([("l", dict(A([a for a, _ in xs]), **lrep)), ("m", dict(M([(k, a) for k, (a, _) in ys]), **mrep)), ("x", one[0])]),
+               "opts": [], "repeat": 2, "plain": M([("l", A([b for _, b in xs])), ("m", M([(k, b) for k, (_, b) in ys])), ("x", one[1])]),
+               "_tag": "norm/float32", "_nt": True, "_sig": "float32|%d|%d|%s" % (len(xs), len(ys), lrep.get("rep"))}
+
+    # values no setting can be made from (complex numbers, uintptr, functions, channels, unsafe pointers) and zero-value
+    # Configs, anywhere in the source: an error or an empty object, never a crash
+    urng = rng.fork("unsupported")
+    for _ in range(60 if tier == "quick" else 600):
+        def odd():
+            if urng.chance(0.5):
+                return {"unsup": urng.pick(["complex", "complex64", "uintptr", "func", "chan", "unsafeptr"])}
+            return {"c": {"v": M([]), "opts": []}, "zero": True, **({"rep": "val"} if urng.chance(0.5) else {})}
+        def wrap(x, depth):
+            r_ = urng.below(4)
+            if depth <= 0 or r_ == 0:
+                return x
+            if r_ == 1:
+                return A(urng.shuffle([wrap(x, depth - 1), U(1)]))
+            return M(urng.shuffle([("k", wrap(x, depth - 1)), ("n", S("v"))]))
+        top = odd() if urng.chance(0.15) else M(urng.shuffle([("a", wrap(odd(), 2)), ("b", U(2))]))
+        yield {"k": "norm", "from": top, "opts": [], "repeat": 2, "_tag": "norm/unsupported-kinds", "_nt": True,
+               "_sig": "unsup|%s" % json.dumps(top)[:60]}
 
     # the same setting given in both spellings with a null or list padding in one of them (legal, must be accepted in every
     # insertion order) and the other overlap classes of C09
